@@ -55,14 +55,21 @@ def source_hash(extra=()):
     return h.hexdigest()[:20]
 
 
-def _prune(keep=10):
+def _prune(keep=40, min_age=3600):
+    """Keep the `keep` most recently used builds; never remove one used in the last hour
+    (another check may be running from it)."""
     try:
         ents = [os.path.join(CACHE, d) for d in os.listdir(CACHE) if d.startswith("be-")]
     except OSError:
         return
     ents.sort(key=lambda p: os.path.getmtime(p))
+    now = time.time()
     for p in ents[:-keep]:
-        shutil.rmtree(p, ignore_errors=True)
+        try:
+            if now - os.path.getmtime(p) > min_age:
+                shutil.rmtree(p, ignore_errors=True)
+        except OSError:
+            pass
 
 
 def backend(variant="plain"):
@@ -146,7 +153,11 @@ def scratch():
     if _scratch is None or _scratch[0] != os.getpid():
         import atexit
         import tempfile
-        base = os.environ.get("VERIF_SCRATCH_BASE") or os.environ.get("TMPDIR") or "/tmp"
+        shared = os.environ.get("VERIF_SHARED_SCRATCH")
+        if shared and os.path.isdir(shared):
+            base = shared       # created (and removed) by bin/check
+        else:
+            base = os.environ.get("VERIF_SCRATCH_BASE") or os.environ.get("TMPDIR") or "/tmp"
         d = tempfile.mkdtemp(prefix="verif-%d-" % os.getpid(), dir=base)
         _scratch = (os.getpid(), d)
         pid = os.getpid()
@@ -166,6 +177,14 @@ def scratch_shared():
     d = scratch()
     os.environ["VERIF_SHARED_SCRATCH"] = d
     return d
+
+
+def cleanup_scratch():
+    """Remove this process's scratch directory now (main.py ends with os._exit)."""
+    global _scratch
+    if _scratch is not None and _scratch[0] == os.getpid():
+        shutil.rmtree(_scratch[1], ignore_errors=True)
+        _scratch = None
 
 
 def cc(src_text, out, flags=(), shared=True, lang="c"):
